@@ -1,15 +1,166 @@
 package main
 
 import (
+	"flag"
 	"fmt"
-	"golang.org/x/tools/go/packages"
+	"os"
+	"path/filepath"
+	"sort"
+	"strings"
 )
 
+func usage() {
+	fmt.Fprintln(os.Stderr, `usage:
+  verif check <Cxx> [--tier quick|thorough]
+  verif func <key> [--goos linux] [--dump dir] [--timeout s]
+  verif list [--goos linux]
+  verif replay <path>`)
+	os.Exit(2)
+}
+
+func repoDir() string {
+	if r := os.Getenv("VERIF_REPO"); r != "" {
+		return r
+	}
+	return "/repo"
+}
+
 func main() {
-	cfg := &packages.Config{Mode: packages.NeedName | packages.NeedSyntax | packages.NeedTypes | packages.NeedTypesInfo | packages.NeedFiles | packages.NeedImports | packages.NeedDeps, Dir: "/repo", BuildFlags: []string{"-tags=verif"}}
-	pkgs, err := packages.Load(cfg, ".")
-	fmt.Println(len(pkgs), err)
-	for _, p := range pkgs {
-		fmt.Println(p.PkgPath, len(p.Syntax), p.Errors)
+	if len(os.Args) < 2 {
+		usage()
+	}
+	switch os.Args[1] {
+	case "func":
+		cmdFunc(os.Args[2:])
+	case "list":
+		cmdList(os.Args[2:])
+	case "check":
+		cmdCheck(os.Args[2:])
+	case "replay":
+		cmdReplay(os.Args[2:])
+	case "selftest":
+		cmdSelftest(os.Args[2:])
+	default:
+		usage()
 	}
 }
+
+func patternsFor(goos string) []string {
+	return []string{".", "./internal/ztest"}
+}
+
+func cmdList(args []string) {
+	fs := flag.NewFlagSet("list", flag.ExitOnError)
+	goos := fs.String("goos", "linux", "")
+	fs.Parse(args)
+	prog, err := loadProgram(repoDir(), *goos, patternsFor(*goos))
+	if err != nil {
+		fmt.Fprintln(os.Stderr, "load:", err)
+		os.Exit(2)
+	}
+	for _, k := range sortedKeys(prog.Contracts.Funcs) {
+		fc := prog.Contracts.Funcs[k]
+		_, has := prog.Funcs[k]
+		fmt.Printf("%-40s trusted=%v inrepo=%v requires=%d ensures=%d loops=%d\n", k, fc.Trusted, has, len(fc.Requires), len(fc.Ensures), len(fc.Loops))
+	}
+}
+
+func cmdFunc(args []string) {
+	fs := flag.NewFlagSet("func", flag.ExitOnError)
+	goos := fs.String("goos", "linux", "")
+	dump := fs.String("dump", "", "directory to write queries to")
+	timeout := fs.Int("timeout", 10, "")
+	verbose := fs.Bool("v", false, "")
+	var keys []string
+	for len(args) > 0 && !strings.HasPrefix(args[0], "-") {
+		keys = append(keys, args[0])
+		args = args[1:]
+	}
+	fs.Parse(args)
+	prog, err := loadProgram(repoDir(), *goos, patternsFor(*goos))
+	if err != nil {
+		fmt.Fprintln(os.Stderr, "load:", err)
+		os.Exit(2)
+	}
+	bad := 0
+	for _, key := range keys {
+		fi := prog.Funcs[key]
+		fc := prog.Contracts.Funcs[key]
+		if fi == nil || fc == nil {
+			fmt.Fprintf(os.Stderr, "no function/contract %s (func=%v contract=%v)\n", key, fi != nil, fc != nil)
+			os.Exit(2)
+		}
+		for _, r := range verifyAllModes(prog, fi, fc) {
+			if r.Err != "" {
+				fmt.Println("ERROR", r.Func, r.Mode, r.Err)
+				bad++
+			}
+			dischargeAll(r.Obligations, *timeout, 0, true)
+			for _, o := range r.Obligations {
+				mark := "ok  "
+				if o.Result != "unsat" {
+					mark = "FAIL"
+					bad++
+				}
+				if *verbose || o.Result != "unsat" {
+					fmt.Printf("%s %-8s %-10s %5dms %s  tags=%v  %s:%d\n", mark, o.Result, o.Solver, o.Ms, o.Name, o.Tags, filepath.Base(o.Pos.Filename), o.Pos.Line)
+					if o.Result != "unsat" {
+						fmt.Printf("       solvers: %v\n", o.Outputs)
+					}
+				}
+				if *dump != "" {
+					os.MkdirAll(*dump, 0o755)
+					os.WriteFile(filepath.Join(*dump, sanitizeFile(o.Name)+".smt2"), []byte(o.Query(true)), 0o644)
+					if o.Model != "" {
+						os.WriteFile(filepath.Join(*dump, sanitizeFile(o.Name)+".model"), []byte(o.Model), 0o644)
+					}
+				}
+			}
+			n, triv := 0, 0
+			for _, o := range r.Obligations {
+				n++
+				if o.Trivial {
+					triv++
+				}
+			}
+			fmt.Printf("== %s %s: %d obligations (%d trivial), abstractions: %v\n", r.Func, r.Mode, n, triv, r.Abstractions)
+		}
+	}
+	if bad > 0 {
+		os.Exit(1)
+	}
+}
+
+func sanitizeFile(s string) string {
+	var b strings.Builder
+	for _, r := range s {
+		switch {
+		case r >= 'a' && r <= 'z', r >= 'A' && r <= 'Z', r >= '0' && r <= '9', r == '_', r == '.', r == '-':
+			b.WriteRune(r)
+		default:
+			b.WriteByte('_')
+		}
+	}
+	out := b.String()
+	if len(out) > 150 {
+		out = out[:150]
+	}
+	return out
+}
+
+func verifyAllModes(prog *Program, fi *FuncInfo, fc *FuncContract) []*VerifyResult {
+	if len(fc.Modes) == 0 {
+		return []*VerifyResult{verifyFunc(prog, fi, fc, nil)}
+	}
+	var out []*VerifyResult
+	for i := range fc.Modes {
+		out = append(out, verifyFunc(prog, fi, fc, &fc.Modes[i]))
+	}
+	return out
+}
+
+func cmdCheck(args []string)    { fmt.Println("not implemented"); os.Exit(2) }
+func cmdReplay(args []string)   { fmt.Println("not implemented"); os.Exit(2) }
+func cmdSelftest(args []string) { fmt.Println("not implemented"); os.Exit(2) }
+
+var _ = sort.Strings
